@@ -479,3 +479,136 @@ class StreamReplayer(object):
         self.pool.close()
         self.pool.join()
         return self.fails
+
+
+# ---------------------------------------------------------------- context-free check (C20)
+
+def sval(v):
+    n = num(v["mag"])
+    return -n if v["neg"] else n
+
+
+def abs_chk(rec):
+    return (num(rec["version"]),
+            tuple((expand(i["hash"]), num(i["index"]), expand(i["script"]), num(i["seq"]),
+                   tuple(expand(w) for w in seq(i["wit"]))) for i in seq(rec["ins"])),
+            tuple((sval(o["value"]), expand(o["script"])) for o in seq(rec["outs"])),
+            num(rec["lock"]))
+
+
+def chk_class(rec, p):
+    """class-level signature of a C20 case: the features that put it on (or next to) a rule"""
+    M = num(rec["maxmoney"])
+    vals = set()
+    for v, _ in p[2]:
+        if v < 0:
+            vals.add("neg")
+        elif v == M:
+            vals.add("max")
+        elif v > M:
+            vals.add(">max")
+    tot = sum(v for v, _ in p[2])
+    feats = []
+    kinds = set()
+    for i in p[1]:
+        hz, ix = i[0] == b"\0" * 32, i[1] == 0xFFFFFFFF
+        kinds.add("null" if hz and ix else "hashnull" if hz else "idxnull" if ix else "n")
+    special = sorted(kinds - {"n"})
+    feats.append("ins=" + ("none" if not p[1] else "1" if len(p[1]) == 1 else "many"))
+    if special:
+        feats.append("outpoints=" + "+".join(special))
+    if len({(i[0], i[1]) for i in p[1]}) != len(p[1]):
+        feats.append("dup")
+    if len(p[1]) == 1 and p[1][0][0] == b"\0" * 32:
+        sl = len(p[1][0][2])
+        feats.append("script0=%s" % ("<2" if sl < 2 else "2..100" if sl <= 100 else ">100"))
+    if not p[2]:
+        feats.append("outs=none")
+    if vals:
+        feats.append("values=" + "+".join(sorted(vals)))
+    if tot == M and "max" not in vals:
+        feats.append("total=max")
+    elif tot > M and not vals & {">max"}:
+        feats.append("total>max")
+    if rec["total"] >= 900000:
+        feats.append("stripped%smax,total%smax" % tuple("<=" if x <= 1000000 else ">" for x in (rec["stripped"], rec["total"])))
+    return "|".join(feats)
+
+
+def observe_check(tx):
+    """call check(); classify what happened"""
+    from pycoin.coins.exceptions import ValidationFailureError
+    try:
+        r = tx.check()
+    except ValidationFailureError as e:
+        return "reject", "ValidationFailureError:" + str(e)
+    except Exception as e:       # any other exception also refuses the transaction; reported separately
+        return "reject", type(e).__name__ + ":" + str(e)[:80]
+    return ("accept", None) if r is None else ("accept", "returned " + repr(r)[:40])
+
+
+def snapshot(tx):
+    return (project_tx(tx), project_unspents(tx))
+
+
+def check_chk_record(rec, sym=None):
+    fails = []
+    sym = rec["coin"]
+    Tx = network(sym).tx
+    p = abs_chk(rec)
+    cls = chk_class(rec, p)
+    want = rec["verdict"]
+    defects = ",".join(sorted(seq(rec["defects"])))
+
+    def fail(call, what, detail=None):
+        fails.append(("C20|%s|%s|%s" % (call, cls, what),
+                      "%s tx.%s on %s (defects: %s): %s" % (sym, call, cls, defects or "none", what),
+                      {"sym": sym, "call": call, "what": what, "detail": detail, "case": rec}))
+
+    try:
+        tx = build_tx(Tx, p)
+        if Tx.MAX_MONEY != num(rec["maxmoney"]):
+            fail("MAX_MONEY", "expected=%d|got=%d" % (num(rec["maxmoney"]), Tx.MAX_MONEY))
+        if p[1] and (len(p[1]) + len(p[2])) % 2 == 0:
+            # attach the outputs being spent (object state that a check must leave alone as well)
+            tx.set_unspents([Tx.TxOut(1000 + k, b"\x51") for k in range(len(p[1]))])
+        before = snapshot(tx)
+        serialisable = all(0 <= v < 2 ** 64 for v, _ in p[2])
+        bin_before = tx.as_bin() if serialisable else None
+    except Exception as e:
+        fail("build", "exc=" + type(e).__name__, repr(e)[:300])
+        return fails
+    # the calls, in an order that also catches state left behind by an earlier call
+    for call in ("check", "is_coinbase", "bad_solution_count", "check"):
+        try:
+            if call == "check":
+                got, info = observe_check(tx)
+                if info is not None and not info.startswith("ValidationFailureError"):
+                    # refused or answered, but not in the documented way
+                    if want != "any" and got != want or info.startswith("returned"):
+                        fail(call, "expected=%s|got=%s(%s)" % (want, got, info.split(":")[0]), info)
+                elif want != "any" and got != want:
+                    fail(call, "expected=%s|got=%s" % (want, got), info)
+            elif call == "is_coinbase":
+                got = bool(tx.is_coinbase())
+                if rec["coinbase"] and not got:
+                    fail(call, "coinbase-not-recognised")
+                elif got != rec["coinbase"]:
+                    # what is_coinbase answers on a non-coinbase is not demanded by the property: an observation
+                    fails.append(("OBS", "is_coinbase|expected=%s|got=%s|%s" % (rec["coinbase"], got, cls), None))
+            else:
+                got = tx.bad_solution_count()
+                if rec["coinbase"] and got != 0:
+                    fail(call, "coinbase-counted-unsigned|got=%r" % (got,))
+        except Exception as e:
+            if call == "bad_solution_count" and not rec["coinbase"]:
+                pass        # how many inputs of a non-coinbase are unsigned, or whether that can be told, is not this property
+            else:
+                fail(call, "exc=" + type(e).__name__, repr(e)[:300])
+        try:
+            if snapshot(tx) != before or (serialisable and tx.as_bin() != bin_before):
+                fail(call, "transaction-modified")
+                break
+        except Exception as e:
+            fail(call, "exc-after=" + type(e).__name__, repr(e)[:300])
+    return fails
